@@ -146,7 +146,7 @@ func runSibCase(rp *reporter, c sibCase) int64 {
 				j, l, fe := j, l, fe
 				feName := [...]string{"Logger.Log", "Logger.Check+Write", "Core.Check+Write"}[fe]
 				desc := func() string {
-					return fmt.Sprintf("leaf %s, parent with %d hooks registered one by one through %s, %d siblings derived from that parent with %d hook(s) each; %s via %s at level %s (use order %v)", c.Leaf, c.K, c.Mode, c.M, c.Per, feName, name(j), lvlName(l), c.Order)
+					return fmt.Sprintf("leaf %s, parent with %d hooks registered one by one through %s, %d siblings derived from that parent with %d hook(s) each%s; %s via %s at level %s (use order %v)", c.Leaf, c.K, c.Mode, c.M, c.Per, map[bool]string{true: ", the first hook of every registration returning an error", false: ""}[c.Fail], feName, name(j), lvlName(l), c.Order)
 				}
 				rep := func() any {
 					return map[string]any{"part": "siblings", "case": c, "logger": j, "level": l, "front_end": feName}
